@@ -31,13 +31,14 @@ from fractions import Fraction
 
 import numpy as np
 
+import c07_flow
 import c07_regex
 from common import Ctx, Finding, Outcome, err_class
 
 PROPERTY = "C07"
 # the text grammar (every pattern the xyz / xyz+ / psi4 routes of from_string.py and filter_comments apply) is regenerated from the
 # working tree on every run: harness/c07_regex.py -> lean/QcelVerif/Gen/FromStringRegex.lean
-TRANSLATORS = [c07_regex.gen_fromstring_regex]
+TRANSLATORS = [c07_regex.gen_fromstring_regex, c07_flow.gen_fromstring_flow]
 LEAN_TARGETS = ["QcelVerif.Props.C07", "QcelVerif.Lemmas.MolTextJoin", "QcelVerif.Props.C07Text", "QcelVerif.Driver.C07",
                 "QcelVerif.Model.TextToMol", "QcelVerif.Driver.C07b", "QcelVerif.Props.C07E2E", "QcelVerif.Props.C07Hash",
                 "QcelVerif.Lemmas.C07Label", "QcelVerif.Props.C07Label", "QcelVerif.Props.C07Full",
@@ -47,9 +48,24 @@ LEAN_TARGETS = ["QcelVerif.Props.C07", "QcelVerif.Lemmas.MolTextJoin", "QcelVeri
                 "QcelVerif.Lemmas.C07ReSep", "QcelVerif.Lemmas.C07ReComment", "QcelVerif.Lemmas.C07ReXyz1strict", "QcelVerif.Lemmas.C07ReXyz1",
                 "QcelVerif.Lemmas.C07ReChgmult", "QcelVerif.Lemmas.C07ReNumberI", "QcelVerif.Lemmas.C07ReAtomShapes", "QcelVerif.Lemmas.C07ReAtomLine",
                 "QcelVerif.Lemmas.C07ReSimpleNuc", "QcelVerif.Lemmas.C07ReNucleus", "QcelVerif.Lemmas.C07ReUnits", "QcelVerif.Lemmas.C07ReKeywords",
-                "QcelVerif.Lemmas.C07ReEfp", "QcelVerif.Lemmas.C07ReFrags", "QcelVerif.Props.C07Regex"]
+                "QcelVerif.Lemmas.C07ReEfp", "QcelVerif.Lemmas.C07ReFrags", "QcelVerif.Props.C07Regex",
+                # the composition of the psi4 reader regenerated from from_string.py's statements (harness/c07_flow.py), its evaluator, the theorems, the driver
+                "QcelVerif.Model.MolTextFlow", "QcelVerif.Gen.FromStringFlow", "QcelVerif.Props.C07Flow", "QcelVerif.Props.C07FlowMints", "QcelVerif.Driver.C07d"]
 DRIVER = "QcelVerif/Driver/C07.lean"
 THEOREMS = [
+    ("QcelVerif.C07Flow.universals_flow_eq", "_filter_universals as regenerated statement by statement from from_string.py (four found-flags, strip, com/orient/bohrang/symmetry tried in the source's order while not yet found, non-empty lines kept, callbacks' stores), run by the evaluator on ANY list of classified lines from a fresh record = M1's univGo on the non-blank lines: same units / fix_com / fix_orientation / fix_symmetry, same remnant lines in order, every statement interpreted"),
+    ("QcelVerif.C07Flow.filterFragment_flow_eq", "filter_fragment as regenerated from from_string.py, run on ANY fragment lines from ANY record: fragment separator from the atoms read so far, labels / coordinates of the Cartesian atom lines, the FIRST CHGMULT line (None, None when there is none) appended exactly as M1's fragSum summarises the fragment; the remnant is the lines M1 counts as remnant"),
+    ("QcelVerif.C07Flow.mints_flow_eq", "_filter_mints as regenerated (fragment loop; system CHGMULT header taken in the FIRST fragment only and only when it is that fragment's sole line; filter_fragment on every other fragment; non-empty remnants kept) followed by the leftover-text MoleculeFormatError and the return = M1's mints (assemble) on EVERY list of fragments free of blank lines, from the record the earlier filters hand over"),
+    ("QcelVerif.C07Flow.noBlank_reaches", "no blank line reaches _filter_mints: what univGo leaves of the non-blank lines, split at markers and passed through efpGo, holds no blank line (hypothesis of mints_flow_eq discharged)"),
+    ("QcelVerif.C07Flow.psi4_flow_eq", "the psi4 reader regenerated from the source - parse_as_psi4_ish's chain pubchem, universals, libefp, mints in the source's order, the statements of _filter_universals and _filter_mints / filter_fragment, the leftover-text raise, the return - equals M1's parsePsi4Lines on EVERY list of classified lines (_filter_pubchem / _filter_libefp run as M1 models them)"),
+    ("QcelVerif.C07Flow.srcRead_eq_parseText_partial", "PARTIAL: the reader regenerated from from_string.py (head filter_comments(molstr.strip()), line split, per-line strip, and for psi4 the regenerated chain) = M1's parseText for EVERY text and each of xyz / xyz+ / psi4; partial because the xyz / xyz+ routes of the regenerated reader are M1's parseXyzLines (_filter_xyz not regenerated), _filter_libefp / _filter_pubchem are M1's, and the joins / splits between the filters are read at line level"),
+    ("QcelVerif.C07Flow.read_write_psi4_src", "read_write_psi4_text restated over the regenerated reader: the psi4 TEXT writePsi4 prints for any well-formed record, read by the statements of from_string.py, gives exactly projectPsi4 r"),
+    ("QcelVerif.C07Flow.read_write_xyzplus_src_partial", "PARTIAL: read_write_xyzplus_text restated over the regenerated reader, whose xyz+ route is still M1's (_filter_xyz not regenerated; only the head of from_string and the line split are the source's)"),
+    ("QcelVerif.C07Flow.srcRead_total", "totality restated over the regenerated reader: on ANY text it returns a processed record, MoleculeFormatError, or out-of-scope exactly where M1 declares out-of-scope (pubchem line, three-point efp form) - no .unknown statement or uninterpretable store is ever met"),
+    ("QcelVerif.C07Flow.forLines_universals", "the regenerated universals line loop from any M1 state (embedded as flags + record) over any lines = univGo from that state, blank lines dropped"),
+    ("QcelVerif.C07Flow.shape_universals", "SHAPE [rfl]: the regenerated _filter_universals is: flags cleared, one loop (strip; com, orient, bohrang, symmetry each under `if not X_found`, in this order, on every line; `if line:` keep), return of the newline-joined remnant"),
+    ("QcelVerif.C07Flow.shape_mints", "SHAPE [rfl]: the regenerated _filter_mints is one loop over the `--` fragments (strip; FIRST fragment a lone CHGMULT line -> system charge/multiplicity, every other through filter_fragment; non-empty remnant kept) and NOTHING after it but the return; filter_fragment is: separator from the atoms so far, first CHGMULT line is the fragment's, Cartesian atom lines consumed into elbl/geom, None/None when no CHGMULT line"),
+    ("QcelVerif.C07Flow.shape_dispatch", "SHAPE [rfl]: from_string's head is strip then filter_comments; parse_as_psi4_ish chains pubchem, universals, libefp, mints in this order, raises MoleculeFormatError on leftover text, then returns; the dtype dispatch sends xyz/xyz+ to parse_as_xyz_ish(strict=True/False), psi4/psi4+ to parse_as_psi4_ish(unsettled=False/True)"),
     ("QcelVerif.MolText.tokens_roundtrip", "splitting the join of non-empty separator-free tokens (any non-empty [\\t ,]+ runs between them) returns the tokens"),
     ("QcelVerif.MolText.strip_join", "surrounding blanks disappear: strip (pad ++ joined tokens ++ pad) = joined tokens"),
     ("QcelVerif.MolText.isNumber_fixed", "every fixed-point string [-]d+.d+ (what '{:.{prec}f}' prints for a finite double, prec >= 1) is accepted by the NUMBER recogniser"),
@@ -183,6 +199,9 @@ TRUSTED_BASE = [
     "Molecule.from_data geometry is compared with the model's coordinates (x Angstrom->bohr factor) under the 8-decimal construction rounding and float_prep's zero band (C11's model), not bit-exactly; all other Molecule fields exactly",
     "the label theorems (Props/C07Label.lean, C07Full.lean) are about C06's hand-written backtracking model of the NUCLEUS regex (Model/Nucleus.lean, tied to CPython's `re` by C06's P lines and by this check's R/RW lines) and about the C06 reconciler over the periodic table regenerated from /repo (`shipped_elements_default`, `shipped_symbols_ok`: decide +kernel on every run); `rd64` stands for float() (checked by C06's D lines)",
     "in the hlab-free theorems the text-level record m (what to_string is given) is related to the validated record r by explicit hypotheses (same symbols/real flags/labels: Carried; printed integers convert to r's charges, multiplicities, separators) - that to_string builds m from r this way (Model/TextToMol.toTextRec) is tied by the RW lines, not proved from from_arrays' invariant",
+    "harness/c07_flow.py (translator, by `ast` on the file text): prints the statements of _filter_universals, _filter_mints, filter_fragment, parse_as_psi4_ish and the head + dtype dispatch of from_string one-to-one into Gen/FromStringFlow.lean (normalisations listed in its docstring: callbacks printed in place at their re.sub/re.subn use, `if unsettled` flattened into tagged statements, names -> constructors); any other statement becomes `.unknown \"<source>\"`, which breaks the shape theorems",
+    "the flow evaluator Model/MolTextFlow.lean runs those statements on M1's LINE CLASSES: 'pattern p matches the line' is read off classify (licensed by the _eq_regex theorems of Props/C07Regex.lean), line.strip() is the identity on textLines' lines, and the text plumbing between the filters (\"\\n\".join / split, re.split(fragment_marker) of the re-joined text, \"\\n--\\n\".join, molinit.update of disjoint keys) is read at line level (fragments = M1's splitMarkers; one record threaded through the filters) - that reading is trusted/differential (frags_eq_regex covers the marker split itself)",
+    "PROVED about the regenerated statements, for every input (Props/C07Flow.lean, C07FlowMints.lean): _filter_universals = M1's univGo; filter_fragment / _filter_mints = M1's fragSum / mints; the chain of parse_as_psi4_ish with its leftover-text error = M1's parsePsi4Lines; the whole regenerated reader = M1's parseText. NOT translated (still hand model M1, differential only): _filter_xyz, _filter_libefp, _filter_pubchem, the psi4+ callbacks and patterns (printed, never run)",
     "harness/c07.py generators, layout rewriter and the Python oracle",
 ]
 ASSUMPTIONS = [
@@ -215,7 +234,8 @@ RULE = (
     "RX (regex tie): the stripped comment-free lines, their [\\t ,]+ tokens, the raw texts and the comment-free texts of the cases sent to the M1 driver (fixed near-miss lists first: count lines, CHGMULT lines, atom lines, keyword "
     "spellings, efp lines, number tokens, comment/backslash texts, marker texts; then a seeded sample: quick 3500 lines / 3000 tokens / 1200 + 1200 texts, thorough 10x) through Driver/C07c.lean - every line through all 12 line-level "
     "recognisers (hand | engine), tokens through NUMBER, texts through filter_comments and the fragment split - and compared with CPython's re applied as the library applies it (re.subn with a callback reading the named groups, "
-    ".match, re.split, filter_comments itself); plus X lines: each of the 19 regenerated patterns on its own kind of input in match / search (/ fullmatch) mode, span and all groups. A case is non-trivial when some recogniser matches."
+    ".match, re.split, filter_comments itself); plus X lines: each of the 19 regenerated patterns on its own kind of input in match / search (/ fullmatch) mode, span and all groups. A case is non-trivial when some recogniser matches. "
+    "Flow three-way: every P line (all streams, xyz / xyz+ / psi4) is also answered by the reader regenerated from from_string.py's statements (Driver/C07d.lean) and must equal M1's answer textually and the implementation field by field (counts flow:*; quick: all P lines, thorough: the first 40000, priority texts first)."
 )
 LEVEL_TEXT = (
     "proof, partial: the M2 theorems (tokenisation, number/nucleus recognisers accept and decode what the writers print, "
@@ -241,7 +261,13 @@ LEVEL_TEXT = (
     "equal 8-decimal float_prep images of the coordinates give equal C11 canonical fields and hash (sufficient printed precision proved for >= 10 decimals, "
     "8-9 decimals and Angstrom texts oracle-checked); the composed reader's error type has only the three documented classes plus explicit out-of-scope/model-gap declarations (a property of the model - "
     "totality of from_string itself remains oracle-checked on generated texts). Still PARTIAL: M1/readMol = from_string (above the proved recognisers: line-filter control flow, atom/keyword/efp recognisers, strip/split) and toTextRec = to_string's view of the record are differential ties; "
-    "that the Lean engine behaves as CPython's re is differential (ASCII)."
+    "that the Lean engine behaves as CPython's re is differential (ASCII). "
+    "COMPOSITION TIE (Props/C07Flow.lean, C07FlowMints.lean; partial): the statements of _filter_universals, _filter_mints / filter_fragment, parse_as_psi4_ish and the head + dtype dispatch of from_string are regenerated from the source on every run "
+    "(Gen/FromStringFlow.lean) and run by an evaluator on M1's line classes (pattern matches = the proved recognisers); PROVED for every input: regenerated _filter_universals = univGo (which keyword is tried on which line, first-occurrence rule, stored fields, remnant lines), "
+    "regenerated filter_fragment / _filter_mints = fragSum / mints (system header in the first fragment only, first CHGMULT line per fragment, atoms, separators, None/None, remnants), the chain pubchem-universals-libefp-mints with the leftover-text MoleculeFormatError = parsePsi4Lines, "
+    "hence the regenerated reader = M1's parseText for every text; read_write_psi4_text and the totality statement are restated over the regenerated reader, read_write_xyzplus only nominally (partial). Each rests on a shape obligation [rfl] that an edit of those bodies breaks; "
+    "all of it is also compared three-way (implementation | regenerated reader | M1) on every generated text. Still NOT regenerated: _filter_xyz (so the xyz / xyz+ route of the M1 = from_string tie stays differential), _filter_libefp, _filter_pubchem; "
+    "the line-level reading of the joins / splits between the filters (\"\\n\".join, re.split(fragment_marker) of the re-joined text, molinit.update) is trusted / differential."
 )
 TECHNIQUE = "Lean 4 proofs about a token/line-level model of writers and reader and about its composition with the from_arrays/C06/C05 models + Lean 4 proofs that the model's recognisers equal a generic regex engine on the patterns regenerated from the source + differential correspondence of the line-filter model against from_string(return_processed=True) and of the composed model against from_string()['qm'] / Molecule.from_data + Python oracle"
 
@@ -1222,6 +1248,9 @@ def run_models(ctx, out: Outcome, budget):
         d = m1_compare(dt, t, r, ml)
         if d is not None:
             out.mismatches.append(Finding("mismatch:M1", {"stream": "m1", "text": t, "dtype": dt}, observed=(r[0], r[1] if r[0] == "err" else None), expected=ml[:300], detail=d))
+    # three-way on the same P lines: implementation | reader regenerated from from_string.py's statements (Driver/C07d.lean) | M1
+    nflow = min(len(cases), ctx.scale(16000, 40000))  # thorough: the first 40000 P lines (priority texts first) - keeps the tier inside its budget
+    c07_flow.flow_stream(ctx, out, cases[:nflow], res[:nflow], m1_compare, hx)
     for (line, text, case), ml in zip(W_CASES, res[len(cases):]):
         out.count("M2:writer_lines")
         if ml != hx(text):
@@ -1652,7 +1681,7 @@ def replay(ctx: Ctx, case) -> Outcome:
             seplayout_case(ctx, out, case["dtype"], case["text"], case["rewritten"])
         elif st == "regex":
             c07_regex.regex_replay(ctx, out, case)
-        elif st == "m1":
+        elif st in ("m1", "flow"):
             impl_parse(case["text"], case["dtype"])
             if case["dtype"] in ("xyz", "xyz+", "psi4"):
                 total_case(ctx, out, case["text"], case["dtype"], "replay")
